@@ -31,6 +31,9 @@ type Gates struct {
 	// Log of every pass (gated or not), for oracles that need to know what the code asked for.
 	trace   []string
 	tracing bool
+	// Deaf: gated calls do not notice that their context ended (the environment call completes or fails on
+	// its own, whatever happened to the request meanwhile); only Release lets them continue
+	Deaf bool
 }
 
 func NewGates() *Gates { return &Gates{parked: map[string]*parked{}} }
@@ -61,7 +64,7 @@ func callerClass() string {
 	frames := runtime.CallersFrames(pcs[:n])
 	for {
 		f, more := frames.Next()
-		if strings.Contains(f.Function, "berty.tech/go-orbit-db/") && !strings.Contains(f.Function, "/verifhook.") {
+		if strings.Contains(f.Function, "berty.tech/go-orbit-db/") && !strings.Contains(f.Function, "/verifhook") {
 			fn := f.Function[strings.LastIndex(f.Function, "/")+1:]
 			// strip closure suffixes so labels do not depend on compiler numbering
 			if i := strings.Index(fn, ".func"); i >= 0 {
@@ -101,7 +104,11 @@ func (g *Gates) Pass(ctx context.Context, kind, peer, key string) (Answer, error
 	}
 	p := &parked{label: label, ch: make(chan Answer, 1)}
 	g.parked[label] = p
+	deaf := g.Deaf
 	g.mu.Unlock()
+	if deaf {
+		return <-p.ch, nil
+	}
 
 	select {
 	case a := <-p.ch:
